@@ -95,6 +95,9 @@ Continued == {"ml", "mlc", "mls", "bs", "mle", "mlse", "mlsw", "oneline", "mlsh"
 FixedKinds == OneLine \cup Compound \cup Continued \cup {"serrc"}
 AllKinds  == FixedKinds \cup BlockKinds
 Alphabet  == FixedKinds \ {"init"}     \* the items a session is made of after its initial  n = 0
+(* the alphabet of the exhaustive 3-item sessions (thorough tier): without the kinds that vary the spelling of a *)
+(* statement only (they are explored in all 2-item sessions)                                                    *)
+Alphabet3 == Alphabet \ {"semi", "semiecho", "indented", "trail", "trailws", "pass", "oneline", "tryexc", "tryfin", "elif", "tabblk", "while", "mlsh"}
 
 M(kd) == Len(Lines(kd))
 (* the line from which on the item may execute (or, for an erroneous statement, be reported) *)
